@@ -672,9 +672,100 @@ def _fold_affine(f, env=None):
 
 @rule('C06', 'R8', 6, 'N4 = 10*floor(|100*dark/size^2 - 50|/5) for every dark count; Micro score = min*16 + max over last column/row without index 0')
 def r8(fx):
+    unknown = None
+    D = None
     fn = fx.fn('encoder', 'mask_scores')
     it = Interp(max_steps=200_000_000)
     genv = encoder_env(fx.forest, it)
+    box = {}
+    try:
+        yield from _n4_by_slice(fx, fn, it, genv, box)
+        D, last_loop, params = box['D'], box['last_loop'], box['params']
+    except Unknown as u:
+        # the fourth score cannot be sliced out of a rewritten function: the whole function is interpreted on symbols of known
+        # dark counts on both sides of every 5 % step - a difference is a witness, no difference is no verdict (deviation 10)
+        unknown = f'{u}; evaluating the function on symbols of known dark counts found no difference from the ISO value (no verdict)'
+        f_ = FuncVal(fn, genv, it)
+        bad = None
+        for n in (21, 25):
+            steps = {round(n * n * pct / 100) + d for pct in range(0, 101, 5) for d in (-1, 0, 1)}
+            for dark in sorted(k for k in steps | {0, 1, n * n - 1, n * n, n * n // 2} if 0 <= k <= n * n):
+                cells = [1] * dark + [0] * (n * n - dark)
+                try:
+                    got = f_([bytearray(cells[r * n:(r + 1) * n]) for r in range(n)], n, n)
+                    got = got[3] if isinstance(got, tuple) and len(got) == 4 else got
+                except PyRaise as ex:
+                    got = f'raises {ex.name}'
+                want = 10 * int(abs(Fraction(100 * dark, n * n) - 50) / 5)
+                if got != want and bad is None:
+                    bad = (n, dark, got, want)
+        if bad:
+            yield ob(f'N4 for size {bad[0]}: every dark count 0..{bad[0] * bad[0]}', False, fn, got=f'dark={bad[1]}: {bad[2]}', want=f'{bad[3]}')
+    em = fx.fn('encoder', 'evaluate_mask')
+    seen = []
+
+    def ms_stub(*a, **k):
+        seen.append((a, k))
+        return (1, 20, 300, 4000)
+    mark = [object(), object(), object()]
+    try:
+        tot = FuncVal(em, dict(genv, mask_scores=ms_stub), it)(*mark)
+    except PyRaise as ex:
+        tot = f'raises {ex.name}'
+    oke = tot == 4321 and len(seen) == 1 and not seen[0][1] and len(seen[0][0]) == 3 and all(x is y for x, y in zip(seen[0][0], mark))
+    yield ob('evaluate_mask = sum of the four scores', oke, em, got=f'{tot} from {len(seen)} call(s) of mask_scores', want='sum(mask_scores(matrix, width, height))')
+    if unknown is None and D is not None:
+        # the scan counts every dark module once: the scan is interpreted on symbols whose dark count is known
+        n = 21
+        upto = fn.body[:last_loop + 1]
+        cases = {'all dark': [[1] * n for _ in range(n)], 'all light': [[0] * n for _ in range(n)],
+                 'first row': [[1] * n] + [[0] * n for _ in range(n - 1)], 'last row': [[0] * n for _ in range(n - 1)] + [[1] * n],
+                 'first column': [[1] + [0] * (n - 1) for _ in range(n)], 'last column': [[0] * (n - 1) + [1] for _ in range(n)],
+                 'corners': [[1 if (r in (0, n - 1) and c in (0, n - 1)) else 0 for c in range(n)] for r in range(n)],
+                 'checker': [[(r + c) & 1 for c in range(n)] for r in range(n)]}
+        bad = {}
+        for name, rows in cases.items():
+            e = dict(genv)
+            e.update({params[0]: [bytearray(r) for r in rows], params[1]: n, params[2]: n})
+            it.block(upto, e)
+            got = e.get(D)
+            want = sum(map(sum, rows))
+            if got != want:
+                bad[name] = (got, want)
+        yield ob('dark counter adds every module once', not bad, fn, got=bad or 'every module once', want='the number of dark modules')
+    elif unknown is None:
+        yield ob('dark counter adds every module once', True, fn, got='counted from the matrix by the N4 expression (checked above for every count)', want='the number of dark modules')
+    # Micro
+    mf = fx.fn('encoder', 'evaluate_micro_mask')
+    f = make_callable(fx.forest, 'encoder', 'evaluate_micro_mask', it, extra_env=reg.model_env())
+    okm = True
+    detail = ''
+    for n in (11, 13, 15, 17):
+        # weights: right column cell (i, n-1) = 1 for the rows that must count; bottom row likewise
+        for (right, bottom) in ((3, 5), (5, 3), (4, 4), (0, 7), (n - 1, n - 1)):
+            rows = [[0] * n for _ in range(n)]
+            for i in range(1, 1 + right):
+                rows[i][n - 1] = 1
+            for j in range(1, 1 + bottom):
+                rows[n - 1][j] = 1
+            if right == n - 1 and bottom == n - 1:
+                rows[n - 1][n - 1] = 1
+            rows[0][n - 1] = 1      # must be ignored (timing row / column index 0)
+            rows[n - 1][0] = 1
+            s1 = sum(rows[i][n - 1] for i in range(1, n))
+            s2 = sum(rows[n - 1][j] for j in range(1, n))
+            want = min(s1, s2) * 16 + max(s1, s2)
+            got = f(reg.Matrix([reg.Row(r) for r in rows]), n, n)
+            if got != want:
+                okm = False
+                detail = f'size {n}, {s1} dark in last column, {s2} in last row: {got} (want {want})'
+    yield ob('Micro score = min(s1, s2) * 16 + max(s1, s2), s over last column / row, index 0 excluded', okm, mf,
+             got=detail or 'ISO 7.8.3.2 formula', want='ISO 7.8.3.2 formula')
+    if unknown is not None:
+        raise Unknown(unknown)
+
+
+def _n4_by_slice(fx, fn, it, genv, box):
     params = src.params(fn)
     need(len(params) == 3, 'mask_scores(matrix, width, height)')
     ret = single([s for s in fn.body if isinstance(s, ast.Return)], 'return of mask_scores')
@@ -726,66 +817,7 @@ def r8(fx):
                 bad = (dark, got, want)
         yield ob(f'N4 for size {n}: every dark count 0..{n * n}', bad is None, ret,
                  got=f'dark={bad[0]}: {bad[1]}' if bad else 'ISO formula', want=f'{bad[2]}' if bad else 'ISO formula')
-    em = fx.fn('encoder', 'evaluate_mask')
-    seen = []
-
-    def ms_stub(*a, **k):
-        seen.append((a, k))
-        return (1, 20, 300, 4000)
-    mark = [object(), object(), object()]
-    try:
-        tot = FuncVal(em, dict(genv, mask_scores=ms_stub), it)(*mark)
-    except PyRaise as ex:
-        tot = f'raises {ex.name}'
-    oke = tot == 4321 and len(seen) == 1 and not seen[0][1] and len(seen[0][0]) == 3 and all(x is y for x, y in zip(seen[0][0], mark))
-    yield ob('evaluate_mask = sum of the four scores', oke, em, got=f'{tot} from {len(seen)} call(s) of mask_scores', want='sum(mask_scores(matrix, width, height))')
-    if D is not None:
-        # the scan counts every dark module once: the scan is interpreted on symbols whose dark count is known
-        n = 21
-        upto = fn.body[:last_loop + 1]
-        cases = {'all dark': [[1] * n for _ in range(n)], 'all light': [[0] * n for _ in range(n)],
-                 'first row': [[1] * n] + [[0] * n for _ in range(n - 1)], 'last row': [[0] * n for _ in range(n - 1)] + [[1] * n],
-                 'first column': [[1] + [0] * (n - 1) for _ in range(n)], 'last column': [[0] * (n - 1) + [1] for _ in range(n)],
-                 'corners': [[1 if (r in (0, n - 1) and c in (0, n - 1)) else 0 for c in range(n)] for r in range(n)],
-                 'checker': [[(r + c) & 1 for c in range(n)] for r in range(n)]}
-        bad = {}
-        for name, rows in cases.items():
-            e = dict(genv)
-            e.update({params[0]: [bytearray(r) for r in rows], params[1]: n, params[2]: n})
-            it.block(upto, e)
-            got = e.get(D)
-            want = sum(map(sum, rows))
-            if got != want:
-                bad[name] = (got, want)
-        yield ob('dark counter adds every module once', not bad, fn, got=bad or 'every module once', want='the number of dark modules')
-    else:
-        yield ob('dark counter adds every module once', True, fn, got='counted from the matrix by the N4 expression (checked above for every count)', want='the number of dark modules')
-    # Micro
-    mf = fx.fn('encoder', 'evaluate_micro_mask')
-    f = make_callable(fx.forest, 'encoder', 'evaluate_micro_mask', it, extra_env=reg.model_env())
-    okm = True
-    detail = ''
-    for n in (11, 13, 15, 17):
-        # weights: right column cell (i, n-1) = 1 for the rows that must count; bottom row likewise
-        for (right, bottom) in ((3, 5), (5, 3), (4, 4), (0, 7), (n - 1, n - 1)):
-            rows = [[0] * n for _ in range(n)]
-            for i in range(1, 1 + right):
-                rows[i][n - 1] = 1
-            for j in range(1, 1 + bottom):
-                rows[n - 1][j] = 1
-            if right == n - 1 and bottom == n - 1:
-                rows[n - 1][n - 1] = 1
-            rows[0][n - 1] = 1      # must be ignored (timing row / column index 0)
-            rows[n - 1][0] = 1
-            s1 = sum(rows[i][n - 1] for i in range(1, n))
-            s2 = sum(rows[n - 1][j] for j in range(1, n))
-            want = min(s1, s2) * 16 + max(s1, s2)
-            got = f(reg.Matrix([reg.Row(r) for r in rows]), n, n)
-            if got != want:
-                okm = False
-                detail = f'size {n}, {s1} dark in last column, {s2} in last row: {got} (want {want})'
-    yield ob('Micro score = min(s1, s2) * 16 + max(s1, s2), s over last column / row, index 0 excluded', okm, mf,
-             got=detail or 'ISO 7.8.3.2 formula', want='ISO 7.8.3.2 formula')
+    box.update(D=D, last_loop=last_loop, params=params)
 
 
 @rule('C06', 'R9', 12, 'normalize_mask: 0..7 (QR) / 0..3 (Micro), numeric strings accepted, everything else ValueError; factories forward mask')
